@@ -186,6 +186,28 @@ def judge(ctx, idx, case):
             problems.append({"call": call, "differs": "second call on the same document", "first": t1[:1500], "second": t2[:1500]})
         elif t1 != t3:
             problems.append({"call": call, "differs": "document built by the same program", "first": t1[:1500], "second": t3[:1500]})
+    if not problems and idx % 2 == 0:
+        # observation is pure also over *histories*: a document that was looked at and exported half-way through its construction
+        # must, once complete, export the same content in every format as a twin that nobody looked at (content, not text: an
+        # accessor may touch the key order of the attribute table)
+        from pv.readers import provjson as jr, provxml as xr, provn as nr
+        plain = interp.run(case["ops"]).doc
+        for fmt, rd in (("json", jr), ("xml", xr), ("provn", nr)):
+            try:
+                t_obs, t_plain = doc.serialize(format=fmt), plain.serialize(format=fmt)
+            except Exception:
+                ctx.count("history_purity.%s.export_raised" % fmt)
+                continue
+            try:
+                a, b = rd.read(t_obs)[0], rd.read(t_plain)[0]
+            except Exception:
+                ctx.count("history_purity.%s.unreadable" % fmt)
+                continue
+            ctx.count("history_purity.%s.compared" % fmt)
+            if a != b:
+                problems.append({"call": "serialize(%s) of a document observed during construction vs an unobserved twin" % fmt,
+                                 "differs": "content read back by the independent reader", "diff": strict.jsonable(strict.diff(b, a, 4))})
+                break
     reports = [(what, wit) for mon, what, wit in hub.drain() if mon == "PURE"]
     if reports:
         ctx.violation(idx, "PURE monitor: %s" % reports[0][0][:300], case, {"reports": [{"what": w, "witness": x} for w, x in reports[:5]]})
@@ -249,7 +271,8 @@ def floors(counters, tier, extra):
               "ProvDocument.__eq__", "ProvBundle.__eq__", "ProvDocument.unified", "ProvBundle.unified", "flattened"):
         if counters.get("mon.PURE.at." + w, 0) < need:
             out.append("PURE at %s evaluated only %d times" % (w, counters.get("mon.PURE.at." + w, 0)))
-    for k in ("text_pairs_compared", "record_ops", "rdf_isomorphism_checks"):
+    for k in ("text_pairs_compared", "record_ops", "rdf_isomorphism_checks", "history_purity.json.compared", "history_purity.xml.compared",
+              "history_purity.provn.compared", "observations_during_construction"):
         if counters.get(k, 0) < need // 4:
             out.append("%s only %d" % (k, counters.get(k, 0)))
     for c in ("json", "xml", "xml_force", "provn", "rdf", "dot", "dot_opts", "graph"):
